@@ -82,6 +82,11 @@ def holds (n m cap : Nat) (ops : List Op) (strict : Bool) (o : Obs) : Bool :=
   holdsWith n m (if strict then fun _ => false else pendSyn ops) (goneSyn n ops)
     (run .repaired (init n cap) ops).evicted o
 
+/-- The property for a history with cloud-control fault points: the same predicate — a failing
+`DisconnectClientIfMatch` must not change what the lookups and counters answer. -/
+def holdsF (n m cap : Nat) (fops : List FOp) (strict : Bool) (o : Obs) : Bool :=
+  holds n m cap (fops.map Prod.fst) strict o
+
 /-- The strict property on a history with the finer kick steps (used only to state the recorded
 finding `evict-close-window`; no `accept … close` bookkeeping is needed there). -/
 def holdsFine (n m cap : Nat) (ops : List FineOp) (o : Obs) : Bool :=
